@@ -34,7 +34,8 @@ WALLCAP = {'quick': 500, 'thorough': 2700}
 F_LOCKED = 'C16-locked-pool-stream'
 ALL_EXCLUSIONS = {F_LOCKED}
 # remove the id when the defect is fixed in /repo (trial run: VERIF_C16_EXCLUSIONS_OFF=C16-locked-pool-stream)
-ACTIVE_EXCLUSIONS = set(ALL_EXCLUSIONS) - set(x for x in os.environ.get('VERIF_C16_EXCLUSIONS_OFF', '').split(',') if x)
+FIXED_IN_REPO = {'C16-locked-pool-stream'}      # fix: commits landed; classes are generated again, witnesses moved to regress/
+ACTIVE_EXCLUSIONS = set(ALL_EXCLUSIONS) - FIXED_IN_REPO - set(x for x in os.environ.get('VERIF_C16_EXCLUSIONS_OFF', '').split(',') if x)
 F_PSVINOT = 'C15-psvi-null-xsmodel'     # not a C16 defect: crashes on the ORIGINAL pool (PSVI handler + XSModel created by the pool before the parse + attribute of a user-defined simple type)
 
 def parse_resp(text):
